@@ -58,7 +58,11 @@ def plan(seed, subbatch):
         if "recollapse" in kinds:
             recollapse = cfg.randint(1, 4)
     start = world.pick_start(cfg, base_s, tf_s, start_mode)
-    rows, fired = world.make_stream(sub_rng(seed, "exchange"), n, base_s, start, faults)
+    regimes = None
+    if subbatch == "faulty" and cfg.random() < 0.4:
+        regimes = world.REGIMES_NORMAL + ["zerovol", "stall0", "stall"]
+    rows, fired = world.make_stream(sub_rng(seed, "exchange"), n, base_s, start, faults, regimes=regimes,
+                                    regime_len=(1, 12))
     feed = sub_rng(seed, "feed")
     k = feed.choice((0, 0, 1, 2, feed.randint(0, len(rows)), len(rows) // 2, len(rows)))
     k = min(k, len(rows))
